@@ -1,16 +1,20 @@
 #!/bin/bash
-# Builds the framework from files on disk only (offline): Coq development + harness.
+# Builds the framework from files on disk only (offline): translator output, Coq development,
+# harness binaries (default, the feature combinations of C10/C20, the debug profile of C05).
 set -e
 cd "$(dirname "$0")/.."
 export CARGO_NET_OFFLINE=true
-mkdir -p .cache/bin evidence
+mkdir -p .cache/bin evidence coq/Generated
+python3 tools/extract.py
 ( cd coq && coq_makefile -f _CoqProject -o Makefile >/dev/null && timeout 3000 make -j16 >/dev/null )
 python3 - <<'PY'
 import sys
 sys.path.insert(0, "tools")
 import vlib
-b, log = vlib.harness_build()
-if b is None:
-    print(log); sys.exit(1)
-print("setup ok:", b)
+for feats, profile in (((), "release"), (("raw_strains",), "release"), (("sync",), "release"),
+                       (("raw_strains", "sync"), "release"), ((), "debug")):
+    b, log = vlib.harness_build(features=feats, profile=profile)
+    if b is None:
+        print(log); sys.exit(1)
+    print("setup ok:", b)
 PY
